@@ -1317,6 +1317,7 @@ func Run(seed int64, tier, out string) {
 	}
 	outs := make([]*progOut, nProg)
 	t0 := time.Now()
+	hx.Inflight(out, "client.Channel.Update", "update programs of two clients", fmt.Sprintf("seed %d, %d programs (see the rule)", seed, nProg))
 	prev := runtime.GOMAXPROCS(0)
 	for _, procs := range []int{1, 4, 16} {
 		runtime.GOMAXPROCS(procs)
@@ -1340,6 +1341,7 @@ func Run(seed int64, tier, out string) {
 		}
 	}
 	runtime.GOMAXPROCS(prev)
+	hx.InflightDone(out)
 
 	w := &fileWriter{dir: out, perFile: perFile, t: newTable()}
 	nTimeoutCh, nFreeCh, nTimeoutRuns := 0, 0, 0
